@@ -220,6 +220,45 @@ func Cover(r *Rand, v *spec.Version, pairs bool, f func(a spec.Assign)) {
 	}
 }
 
+// StructuredPerm returns an order of n elements: uniformly random (1/3), or NEAR the specification
+// order -- one element moved, a contiguous block moved, two elements swapped, a rotation, the reverse --
+// because parsers special-case runs of elements that appear in specification order.
+func StructuredPerm(r *Rand, n int) []int {
+	p := make([]int, n)
+	for i := range p {
+		p[i] = i
+	}
+	switch r.Intn(9) {
+	case 0, 1, 2:
+		return r.Perm(n)
+	case 3, 4: // one element moved
+		i, j := r.Intn(n), r.Intn(n)
+		x := p[i]
+		p = append(p[:i], p[i+1:]...)
+		p = append(p[:j:j], append([]int{x}, p[j:]...)...)
+	case 5, 6: // a contiguous block moved
+		lo := r.Intn(n)
+		hi := lo + 1 + r.Intn(n-lo)
+		blk := append([]int{}, p[lo:hi]...)
+		rest := append(append([]int{}, p[:lo]...), p[hi:]...)
+		at := r.Intn(len(rest) + 1)
+		p = append(append(append([]int{}, rest[:at]...), blk...), rest[at:]...)
+	case 7: // rotation
+		k := r.Intn(n)
+		p = append(append([]int{}, p[k:]...), p[:k]...)
+	default: // two swapped, or reversed
+		if r.Bool() {
+			i, j := r.Intn(n), r.Intn(n)
+			p[i], p[j] = p[j], p[i]
+		} else {
+			for i, j := 0, n-1; i < j; i, j = i+1, j-1 {
+				p[i], p[j] = p[j], p[i]
+			}
+		}
+	}
+	return p
+}
+
 // RandomSpelling writes a as an accepted, generally non-canonical string:
 // explicit "not defined" values with probability 1/4 per metric (v2: groups),
 // and for v3 a random order of the metrics.
@@ -246,7 +285,7 @@ func RandomSpelling(r *Rand, v *spec.Version, a spec.Assign) (s string, explicit
 	}
 	var perm []int
 	if (v.ID == spec.V30 || v.ID == spec.V31) && r.Chance(3, 4) {
-		perm = r.Perm(v.N())
+		perm = StructuredPerm(r, v.N())
 	}
 	return v.Spell(a, explicit, perm), explicit
 }
